@@ -173,6 +173,21 @@ CHECKS["C09"] = dict(
     design="5/C09",
 )
 
+CHECKS["C16"] = dict(
+    text="Proved for EVERY token stream and EVERY matcher (spans as finditer yields them): the count is the number of matches in document order; a replacement "
+    "keeps every token in place and changes only characters of text nodes (replace_keeps_markup); a text node is the weave of its gaps and matches and the "
+    "new node is the weave of the same gaps with the replacement (replace_changes_matches_only); no match, no change; text_at of a search span is the matched "
+    "text and clamps out-of-range arguments; formatted=True keeps the characters and yields the ODF normal form (instances of C05's theorems). "
+    "Correspondence: count / replace / text_at on generated layouts x 26 patterns x targets {paragraph, inner span / link with a tail}; oracle: per-node re.sub "
+    "over lxml, start tags before/after, own-text projection for search / search_first / search_all / match / text_at, characters and white-space encoding "
+    "after formatted replace, text outside the target untouched.",
+    note="`re` is a parameter of the model (the harness supplies finditer spans per node); the replacement string is literal (no group references). The "
+    "formatted=True path is modelled by C05's append_plain_text model per rebuilt container and checked by the oracle only (characters + no raw blank runs / "
+    "tabs / newlines in rebuilt paragraphs, headings, spans); text directly inside a link is not formatted by design.",
+    technique="Lean 4 theorems (weave decomposition, matcher as a parameter, reuse of C05 theorems) + differential correspondence + lxml/re oracle",
+    design="5/C16",
+)
+
 NOT_YET = {}
 
 
